@@ -11,7 +11,7 @@
 (*                                                                         *)
 (* Log records (one JSON object per line; many traces in one file):        *)
 (*   [ev |-> "reset", mode, reqs]                 a new channel            *)
-(*   [ev |-> "in", via, id, dmg, seq, req, kind, msg, part]                *)
+(*   [ev |-> "in", via, id, dmg, seq, req, kind, msg, part, over]          *)
 (*   [ev |-> "acc", seq, req, kind]               chunk accepted           *)
 (*   [ev |-> "renew", seq]                        token renewal: the OPN   *)
 (*                                                chunk took number seq    *)
@@ -59,7 +59,7 @@ Expected(o, c, kept) ==
   LET acc == [ev |-> "acc", how |-> "", msg |-> 0, seq |-> c.seq, req |-> c.req, kind |-> c.kind] IN
   CASE o = "reject"  -> <<Ret("err", 0)>>
     [] o = "buffer"  -> <<acc>>
-    [] o \in {"toomany", "abort"} -> <<acc, Ret("err", 0)>>
+    [] o \in {"toomany", "abort", "toobig"} -> <<acc, Ret("err", 0)>>
     [] o = "deliver" -> <<acc, IF IsWhole(kept, c) THEN Ret("msg", c.msg) ELSE Ret("any", 0)>>
     [] o = "close"   -> <<Ret("err", 0)>>
     [] OTHER         -> <<>>
@@ -67,7 +67,7 @@ Expected(o, c, kept) ==
 TIn == /\ More /\ Log[l].ev = "in"
        /\ ~tr.crashed /\ ~tr.desync
        /\ LET e == Log[l]
-              c == [id |-> e.id, seq |-> e.seq, req |-> e.req, msg |-> e.msg, part |-> e.part, kind |-> e.kind]
+              c == [id |-> e.id, seq |-> e.seq, req |-> e.req, msg |-> e.msg, part |-> e.part, kind |-> e.kind, over |-> e.over]
               o == Outcome(tr, c, e.dmg, TraceFlags)
           IN /\ tr' = RecvF(tr, c, e.dmg, e.via, TraceFlags)
              /\ pend' = pend \o Expected(o, c, Kept(tr, c, TraceFlags))
